@@ -7,7 +7,7 @@ CHECKS['C05'] = ('model_checking',
   'DESIGN.md 3/C05')
 CHECKS['C01'] = ('model_checking',
   'bounded-exhaustive enumeration of (step expression, instance model) pairs executed on the real generator, compared with interval set semantics',
-  'Every statically well-typed step expression up to the operator bound (as generated attack steps of the SEM language family) is evaluated by the real AttackGraph generator on every instance model up to the asset/link bound; each node\'s child set must lie between the reference lower/upper semantics (equal when no * occurs), parents must be the converse, generation must terminate (also on navigation chains of 4..40 hops over densely linked models, within a CPU-time limit).',
+  'Every statically well-typed step expression up to the operator bound (as generated attack steps of the SEM language family) is evaluated by the real AttackGraph generator on every instance model up to the asset/link bound; each node\'s child set must lie between the reference lower/upper semantics (equal when no * occurs), parents must be the converse, generation must terminate (also on navigation chains of 4..40 hops and set operators nested 4..12 deep over densely linked models, within a CPU-time limit).',
   'Trusted: CPython, python_jsonschema_objects, the 100-line reference evaluator (self-checked by algebraic laws). Set operators are applied per start asset (MAL semantics).',
   'DESIGN.md 3/C01')
 CHECKS['C03'] = ('model_checking',
@@ -27,7 +27,7 @@ CHECKS['C08'] = ('model_checking',
   'DESIGN.md 3/C08')
 CHECKS['C09'] = ('model_checking',
   'explicit-state BFS over API-call histories of real attack graphs, structural invariants in every state plus functional reference per operation, deviation-bounded',
-  'Every history (to the reported depth / deviation budget) of generate, regenerate, add/remove node, attach/add/remove attacker, compromise/undo, analyse, prune, deep copy and save/load over graphs generated from two small languages is executed on the real code; in every state all child/parent references are inside the graph and mirrored, lookups by id / full name / attacker id are exact for present and for stale keys, attackers and nodes only reference live objects; a regenerated graph must equal a freshly generated one. The alphabet also hands removed and live node / attacker objects back to the graph and passes unknown ids after known ones (a rejected call changes nothing).',
+  'Every history (to the reported depth / deviation budget) of generate, regenerate, add/remove node, attach/add/remove attacker, compromise/undo, analyse, prune, deep copy and save/load over graphs generated from two small languages is executed on the real code; in every state all child/parent references are inside the graph and mirrored, lookups by id / full name / attacker id are exact for present and for stale keys, attackers and nodes only reference live objects; a regenerated graph must equal a freshly generated one. The alphabet also hands removed and live node / attacker objects back to the graph passes unknown ids after known ones (a rejected call changes nothing) and adds attackers that were constructed with entry points / reached steps already filled in.',
   'Trusted: CPython; ids chosen automatically are only constrained to be unique; list orders not compared.',
   'DESIGN.md 3/C09')
 CHECKS['C11'] = ('model_checking',
@@ -77,7 +77,7 @@ CHECKS['C15'] = ('exploration',
   'DESIGN.md 3/C15')
 CHECKS['C06'] = ('exploration',
   'bounded-exhaustive enumeration of languages x construction attempts (types, field sizes 0..max+1, repeated assets, duplicate links, defense values), accepted iff allowed by the language',
-  'For every language of the CLS family (inherited / overridden / extended defenses with every TTC form, all 49 multiplicity form pairs, same-named associations over different type pairs, over the same pair in both directions and over the same pair with different field names, a language without associations) and the OPS languages: asset classes and defense properties with defaults, every defense value inside and outside [0,1] (incl. inf, -inf, nan) by constructor and assignment, association classes via signature lookup with their two fields, and per association class every construction attempt over every asset type (declared, subtype, supertype, sibling, unrelated), sizes up to max+1, repeated assets and duplicate links; an attempt must be accepted exactly when the language allows it and a rejected attempt must leave the model unchanged.',
+  'For every language of the CLS family (inherited / overridden / extended defenses with every TTC form, all 49 multiplicity form pairs, same-named associations over different type pairs, over the same pair in both directions and over the same pair with different field names, joined class names that coincide, a language without associations) and the OPS languages: asset classes and defense properties with defaults, every defense value inside and outside [0,1] (incl. inf, -inf, nan) by constructor and assignment, association classes via signature lookup with their two fields, and per association class every construction attempt over every asset type (declared, subtype, supertype, sibling, unrelated), sizes up to max+1, repeated assets and duplicate links; an attempt must be accepted exactly when the language allows it and a rejected attempt must leave the model unchanged.',
   'Trusted: python_jsonschema_objects validation (checked end to end through what maltoolbox builds from it). Minimum multiplicities are not demanded. Known finding (KNOWN_FINDINGS.txt): NaN is accepted as a defense value.',
   'DESIGN.md 3/C06')
 CHECKS['C16'] = ('exploration',
@@ -87,11 +87,11 @@ CHECKS['C16'] = ('exploration',
   'DESIGN.md 3/C16')
 CHECKS['C18'] = ('model_checking',
   'every distinct model content reached by the history search is emitted through inverse translators (0.0.39 json/yaml, .sCAD) and loaded by the legacy loaders; normal-form equality with the native load',
-  'Every distinct model reached by bounded edit histories (id gaps, zero/negative/explicit ids, multi-member and duplicate-named associations incl. links between subtypes, several attackers with several entry points per asset) plus a decorated family is written in the 0.0.39 layout (json, yaml, nested and inline association fields) and as a .sCAD archive (both orientations of every association element) and loaded through the legacy loaders; assets with defenses, pairwise links and entry points must equal those of the native load.',
+  'Every distinct model reached by bounded edit histories (id gaps, zero/negative/explicit ids, multi-member and duplicate-named associations incl. links between subtypes, several attackers with several entry points per asset) plus a decorated family is written in the 0.0.39 layout (json, yaml, nested and inline association fields) and as a .sCAD archive (both orientations of every association element) and loaded through the legacy loaders; assets with defenses (also defenses whose names start with a capital letter), pairwise links and entry points must equal those of the native load.',
   'Trusted: the two 40-line emitters (inverse of the loaders\' documented conventions, shaped after the shipped fixtures). Attacker names and model name are not compared for .sCAD.',
   'DESIGN.md 3/C18')
 CHECKS['C19'] = ('model_checking',
   'recording stand-in for the database driver; every reached model / attack-graph state exported and compared; import replayed under every permutation of the answer rows',
   'py2neo.Graph is replaced by a recording stand-in that answers the two Cypher query shapes get_model sends with their Cypher meaning: for every distinct model reached by bounded edit histories (plus pairs linked by two association types, one type in both directions, self-links, same-named associations between subtypes) the created Subgraph must hold one node per asset and one relationship per direction of every linked pair labelled with the field name; get_model against what was exported must reconstruct the same assets and links under EVERY order of the answer rows, and also when the attack graph of the model was ingested into the same database; every attack-graph state of the C09 search is exported and compared node by node and edge by edge.',
-  'Trusted: py2neo Node/Relationship/Subgraph and the stand-in\'s reading of the two Cypher strings. Defense values and attackers are not exported by the library.',
+  'Trusted: py2neo Node/Relationship/Subgraph and the stand-in\'s reading of the two Cypher query shapes and of py2neo\'s label type check. Defense values and attackers are not exported by the library.',
   'DESIGN.md 3/C19')
